@@ -496,6 +496,16 @@ type SpecDB struct {
 	Ghosts    map[string]*GhostDecl
 	Axioms    []*Clause // global assumed axioms with reasons
 	Order     []string
+	Census    []*Census // structural censuses (e.g. which functions may contain a range-over-map loop)
+}
+
+// Census: "census <prop> map-range: F1, F2, ..." - the functions of the package that contain a range-over-map loop are among the listed
+// ones (each of which is under a contract that shows order independence, or is declared order-relaxed in DESIGN.md).
+type Census struct {
+	Prop    string
+	Kind    string
+	Allowed map[string]bool
+	Src     string
 }
 
 type rawDecl struct {
@@ -521,7 +531,7 @@ func loadSpecs(dir string) (*SpecDB, error) {
 	return db, nil
 }
 
-var declStarters = map[string]bool{"func": true, "extern": true, "iface": true, "functype": true, "pred": true, "lemma": true, "ghost": true, "axiom": true}
+var declStarters = map[string]bool{"func": true, "extern": true, "iface": true, "functype": true, "pred": true, "lemma": true, "ghost": true, "axiom": true, "census": true}
 
 func (db *SpecDB) parseFile(fname, text string) error {
 	// collect //@ lines with their indentation
@@ -692,6 +702,25 @@ func (db *SpecDB) parseDecl(d *rawDecl) error {
 			return fmt.Errorf("pred %s: %v", name, err)
 		}
 		db.Preds[name] = &Pred{Name: name, Params: params, Body: e, Src: body}
+		return nil
+	case "census":
+		// census C04 map-range: F1, F2, ...
+		body := rest
+		for _, l := range d.lines[1:] {
+			body += " " + l
+		}
+		k := strings.Index(body, ":")
+		hd := strings.Fields(body[:max(k, 0)])
+		if k < 0 || len(hd) != 2 {
+			return fmt.Errorf("census: want 'census <prop> <kind>: names'")
+		}
+		c := &Census{Prop: hd[0], Kind: hd[1], Allowed: map[string]bool{}, Src: strings.TrimSpace(body)}
+		for _, n := range strings.Split(body[k+1:], ",") {
+			if n = strings.TrimSpace(n); n != "" {
+				c.Allowed[n] = true
+			}
+		}
+		db.Census = append(db.Census, c)
 		return nil
 	case "axiom":
 		// axiom expr because "reason"
